@@ -357,6 +357,32 @@ pub const GROUPS: &[(&str, &[(&str, &[Sel])])] = &[
             ],
         )],
     ),
+    // sealing / opening on top of the (de)serialisers: the AEAD of crypto.rs is an abstract parameter
+    (
+        "NcCodec",
+        &[
+            ("renetcode/src/lib.rs", &[Sel::Const("NETCODE_MAC_BYTES")]),
+            ("renetcode/src/error.rs", &[Sel::From("NetcodeError", "CryptoError"), Sel::From("NetcodeError", "TokenGenerationError")]),
+            (
+                "renetcode/src/token.rs",
+                &[
+                    Sel::From("TokenGenerationError", "Error"),
+                    Sel::From("TokenGenerationError", "CryptoError"),
+                    Sel::Method("PrivateConnectToken", "encode"),
+                    Sel::Method("PrivateConnectToken", "decode"),
+                ],
+            ),
+            (
+                "renetcode/src/packet.rs",
+                &[
+                    Sel::Method("ChallengeToken", "decode"),
+                    Sel::Method("Packet", "generate_challenge"),
+                    Sel::Method("Packet", "encode"),
+                    Sel::Method("Packet", "decode"),
+                ],
+            ),
+        ],
+    ),
 ];
 
 pub fn work_list() -> Vec<WorkItem> {
@@ -438,4 +464,6 @@ pub const OPAQUE_TYPES: &[(&[&str], &str)] = &[
     (&["SocketAddrV4"], "RustSem.SocketAddrV4"),
     (&["SocketAddrV6"], "RustSem.SocketAddrV6"),
     (&["IpAddr"], "RustSem.IpAddr"),
+    // `chacha20poly1305::aead::Error as CryptoError`: the one-point error of the external AEAD
+    (&["CryptoError"], "RustSem.CryptoError"),
 ];
